@@ -51,6 +51,27 @@ def doc_enum(batch):
                             for i, nm in enumerate(batch)}}
 
 
+PAYLOADS = [
+    {"type": "integer"},
+    {"type": "array", "items": [{"type": "integer"}], "minItems": 1, "maxItems": 1},
+    {"type": "array", "items": [{"type": "integer"}, {"type": "string"}], "minItems": 2, "maxItems": 2},
+    {"type": "object", "properties": {"x": {"type": "integer"}}, "required": ["x"]},
+    {"type": "array", "items": {"type": "string"}},
+]
+PAYLOAD_VALUES = [5, [5], [5, "s"], {"x": 5}, ["a"]]
+
+
+def doc_variant(batch):
+    """externally tagged union: the name is the key of a variant WITH data (five payload shapes in rotation)"""
+    defs = {}
+    for i, nm in enumerate(batch):
+        other = "zz_filler" if nm != "zz_filler" else "zz_filler2"
+        defs["T%d" % i] = {"oneOf": [
+            {"type": "object", "required": [nm], "properties": {nm: PAYLOADS[i % len(PAYLOADS)]}, "additionalProperties": False},
+            {"type": "object", "required": [other], "properties": {other: {"type": "boolean"}}, "additionalProperties": False}]}
+    return {"definitions": defs}
+
+
 def doc_def(nm):
     return {"definitions": {nm: {"type": "object", "properties": {"v": {"type": "integer"}}, "required": ["v"]},
                             "UserOfIt": {"type": "object", "properties": {"f": {"$ref": "#/definitions/" + nm.replace("~", "~0").replace("/", "~1")}},
@@ -103,6 +124,7 @@ def run(tier, seed, replay=None):
         batch = allnames[bi:bi + B]
         add("p%05d" % (bi // B), doc_prop(batch), "prop", batch)
         add("e%05d" % (bi // B), doc_enum(batch), "enum", batch)
+        add("v%05d" % (bi // B), doc_variant(batch), "variant", batch)
     for i, nm in enumerate(allnames):
         add("d%06d" % i, doc_def(nm), "def", [nm])
     for i, (a, b) in enumerate(PAIRS):
@@ -121,10 +143,10 @@ def run(tier, seed, replay=None):
     retry = []
     for cid, res in list(results.items()):
         m = meta[cid]
-        if m["kind"] in ("prop", "enum") and len(m["names"]) > 1 and vgen.ingest_status(res) != "ok":
+        if m["kind"] in ("prop", "enum", "variant") and len(m["names"]) > 1 and vgen.ingest_status(res) != "ok":
             for k, nm in enumerate(m["names"]):
                 c2 = "%s_%02d" % (cid, k)
-                doc = doc_prop([nm]) if m["kind"] == "prop" else doc_enum([nm])
+                doc = {"prop": doc_prop, "enum": doc_enum, "variant": doc_variant}[m["kind"]]([nm])
                 retry.append({"id": c2, "settings": {}, "history": [{"op": "root", "schema": doc}],
                               "opts": {"has_impl": False, "code": False, "hooks": False}})
                 meta[c2] = {"kind": m["kind"], "names": [nm]}
@@ -163,7 +185,7 @@ def run(tier, seed, replay=None):
             continue
         defs = res.get("defs") or {}
         ok = True
-        if m["kind"] in ("prop", "enum"):
+        if m["kind"] in ("prop", "enum", "variant"):
             for i, nm in enumerate(m["names"]):
                 it = items.get(norm((defs.get("T%d" % i) or {}).get("name") or ""))
                 if it is None:
@@ -223,7 +245,7 @@ def run(tier, seed, replay=None):
                 rep.nontrivial.add((m["kind"], a, b))
         if ok:
             rep.count("ok_" + m["kind"], len(m["names"]))
-            if m["kind"] in ("prop", "enum", "pair_prop", "pair_enum"):
+            if m["kind"] in ("prop", "enum", "variant", "pair_prop", "pair_enum"):
                 compile_pool.append(cid)
             if len(rep.samples) < 4 and m["kind"] == "prop":
                 it = items.get(norm((defs.get("T7") or {}).get("name") or ""))
@@ -249,10 +271,10 @@ def run(tier, seed, replay=None):
             if cid in run3.s2.removed:
                 continue
             defs = res3[cid].get("defs") or {}
-            if m["kind"] in ("prop", "enum"):
+            if m["kind"] in ("prop", "enum", "variant"):
                 for i, nm in enumerate(m["names"]):
                     t = norm((defs.get("T%d" % i) or {}).get("name") or "")
-                    v = {nm: 5} if m["kind"] == "prop" else nm
+                    v = {nm: 5} if m["kind"] == "prop" else (nm if m["kind"] == "enum" else {nm: PAYLOAD_VALUES[i % len(PAYLOADS)]})
                     probes.append({"pid": len(probes), "case": cid, "ty": t, "op": "de", "input": json.dumps(v), "v": v})
             else:
                 a, b = m["names"]
